@@ -209,7 +209,9 @@ class ControlVariates:
         sigma_x = covariance[0:-1, 0:-1]
         sigma_xy = covariance[0:-1, -1]
         try:
-            if np.amin(np.absolute(sigma_x)) < 1e-12:
+            # a control without sample variance cannot be regressed on (uncorrelated controls can: a zero off the diagonal
+            # of the covariance matrix is not a degeneracy)
+            if np.amin(np.diag(np.atleast_2d(sigma_x))) < 1e-12:
                 b_star = np.zeros_like(sigma_xy)
             else:
                 inv_sigma_x = np.linalg.inv(sigma_x)
